@@ -42,6 +42,7 @@ type request struct {
 	recipe  string
 	typ     string // hours selection type / mode strings as sent (normally manual|auto, share)
 	mode    string
+	note    map[string]interface{} // added to the witness (session context)
 }
 
 func newRequest(headTime uint64, uxs []coin.UxOut) *request {
